@@ -411,6 +411,25 @@ def run(ctx):
                         indep = False
                         why = 'append of %s is conditioned on %s, which carries state from one group ' \
                               'to the next' % (lst, sorted(names_in(e) & carried))
+        # ... and from *all* of them: the list is created before, and stored
+        # after, the loop over the conformation names (created or stored inside
+        # it, the marks of the last conformation that holds the group win)
+        blk = getattr(rebuilt[0]._parent, 'body', [])
+        lst_ = norm(rebuilt[0].value)
+        inits = [st for st in blk if isinstance(st, (ast.Assign, ast.AnnAssign))
+                 and norm(st.targets[0] if isinstance(st, ast.Assign) else st.target) == lst_
+                 and st.value is not None and norm(st.value) in ('[]', 'list()')]
+        conf_loops = [st for st in blk if isinstance(st, ast.For) and 'conformation_names' in norm(st.iter)
+                      and any(last_attr(c) in ('append', 'add') and norm(c.func.value) == lst_
+                              for c in calls_in(st))]
+        all_inits = [st for st in ast.walk(avg) if isinstance(st, (ast.Assign, ast.AnnAssign))
+                     and norm(st.targets[0] if isinstance(st, ast.Assign) else st.target) == lst_]
+        union = rebuilt[0] in blk and len(inits) == 1 and len(all_inits) == 1 and len(conf_loops) == 1 \
+            and blk.index(inits[0]) < blk.index(conf_loops[0]) < blk.index(rebuilt[0])
+        ctx.ob('C15.R4', 'average:marks-union-over-conformations', union,
+               'the partner list of an averaged group is created before, and stored after, one loop '
+               'over all conformation names that appends to it: the union of the marks',
+               mcm, rebuilt[0])
         ctx.ob('C15.R4', 'average:marks-per-group-independent', indep,
                'the partner list of an averaged group is built inside the per-group loop from that '
                'group\'s conformations only (%s)' % why, mcm, rebuilt[0])
